@@ -429,6 +429,13 @@ def _(n, T):
             F(n + "c", "void", [P("s", "str_ref_out"), P("k", "val", "int"), P("c", "val", "char")])]
 
 
+@shape("str_then_callback", langs=("c", "c++"), wraps=("c", "fortran"), doc="callbacks.rst + strings.yaml: a function pointer argument (without +external) after / before a string argument")
+def _(n, T):
+    return [F(n + "a", "int", [P("s", "cstr_in"), P("fn", "fnptr")]),
+            F(n + "b", "int", [P("fn", "fnptr"), P("s", "cstr_in")]),
+            F(n + "c", "int", [P("k", "val", "int"), P("fn", "fnptr")])]
+
+
 @shape("char_scalar", langs=("c", "c++"), wraps=("c", "fortran"), doc="clibrary.yaml / strings.yaml passChar, returnChar")
 def _(n, T):
     return [F(n + "r", "char", [P("a", "val", "int")]),
